@@ -283,6 +283,30 @@ func r053(c *Ctx, r *R) {
 		}
 		r.Check(okCancel, "error-then-cancel", se[0].Pos(), "the failed operation is cancelled after recording the error", "the failed operation is not cancelled after SetError")
 	}
+	// a failed call leaves its error on the operation unless the operation
+	// was cancelled meanwhile: every way out of the per-operation logic
+	// passes the success edge of the call, the edge "the operation is
+	// cancelled", or the SetError call - no other test (the error's text, a
+	// context error) may skip the record
+	if helper && len(se) == 1 {
+		hasSetErr := func(b *ssa.BasicBlock) bool { return b == se[0].Block() }
+		legit := func(g Guard) bool {
+			if gNil(g, false, func(v ssa.Value) bool { cl, _ := originCall(v); return cl == pinCall }) {
+				return true
+			}
+			return gCall(g, true, "optracker.Operation).Cancelled")
+		}
+		okAll := true
+		for _, ret := range returnsOf(f) {
+			if ret.Block() == se[0].Block() {
+				continue
+			}
+			if !mustPassX(ret.Block(), legit, hasSetErr) {
+				okAll = false
+			}
+		}
+		r.Check(okAll, "error-always-recorded", se[0].Pos(), "the only ways around SetError are a successful call and a cancelled operation", "the worker can finish a failed, non-cancelled operation without recording the error (a test other than op.Cancelled() skips SetError): the operation stays 'pinning'/'unpinning' for ever, is never retried and its failure is never reported")
+	}
 	if done == nil {
 		r.Bad("done", f.Pos(), "the worker never sets PhaseDone")
 	} else {
@@ -452,6 +476,43 @@ func r055(c *Ctx, r *R) {
 			return cx != nil && nameMatches(callName(cx.Common()), "optracker.Operation).Type") && paramIndex(f, b.Y) == 3 && eq
 		})
 		notErr, notDone := any(phaseNot(phErr)), any(phaseNot(phDone))
+		// the operation that is kept must keep running: no Cancel on a
+		// path to this return
+		cancelled := false
+		for _, dc := range findCallsDeep(f, "optracker.Operation).Cancel") {
+			ci := dc.Outer
+			if !(ci.Block() == lf.Block || blockReaches(ci.Block(), lf.Block)) {
+				continue
+			}
+			if dc.Outer != dc.Inner {
+				// inside a helper whose answer decides this return: only
+				// the helper's returns with that answer count
+				var ans *bool
+				for _, g := range gs {
+					if hc, _ := originCallLocal(g.Cond); hc != nil && ssa.Instruction(hc) == ssa.Instruction(dc.Outer.(*ssa.Call)) {
+						b := g.Branch
+						ans = &b
+					}
+				}
+				if h := dc.Outer.Common().StaticCallee(); ans != nil && h != nil && dc.Inner.Parent() == h {
+					hit := false
+					for _, hl := range returnLeaves(h, 0) {
+						k, isK := constOf(hl.Val)
+						if isK && k != nil && constant.BoolVal(k) != *ans {
+							continue
+						}
+						if dc.Inner.Block() == hl.Block || blockReaches(dc.Inner.Block(), hl.Block) {
+							hit = true
+						}
+					}
+					if !hit {
+						continue
+					}
+				}
+			}
+			cancelled = true
+		}
+		r.Check(!cancelled, "dedupe-keeps-running", lf.Pos, "the ongoing operation that is kept is not cancelled", "TrackNewOperation cancels the ongoing operation and then keeps it (returns nil): its IPFS request is aborted, nothing replaces it and the item never reaches its target state")
 		r.Check(found && sameType && notErr && notDone, "dedupe-condition", lf.Pos, "nil (already ongoing) only for an existing operation of the same type that is neither failed nor done",
 			fmt.Sprintf("TrackNewOperation refuses a new operation without requiring same type (%v), phase != error (%v), phase != done (%v): a retry after failure or an opposite instruction would be dropped", sameType, notErr, notDone))
 	}
